@@ -139,7 +139,8 @@ def _param_sets(tier):
     ln, asin = sp.log, sp.asin
     quick = tier == "quick"
     sets = {
-        "Schwarzschild_isotropic": [({"M": R(1)}, [(0, R(1), R(1, 2), R(1)), (R(1, 3), R(2), R(3), R(6)), (0, R(-3, 2), R(-1), R(3))])],
+        "Schwarzschild_isotropic": [({"M": R(1)}, [(0, R(1), R(1, 2), R(1)), (R(1, 3), R(2), R(3), R(6)), (0, R(-3, 2), R(-1), R(3)),
+                                                   (0, R(1, 9), R(2, 9), R(2, 9))])],      # the last one inside r < M/2
         "Conformally_flat": [({"eps": R(2)}, [(0, R(1, 2), R(0), R(0)), (R(1), R(-1), R(2, 3), R(1, 5)), (0, R(3, 4), R(1), R(-2))])],
         "Non_diagonal": [({"fq": R(1, 2)}, [(R(1), R(0), R(0), 2 * asin(R(3, 5))), (R(2), R(1, 3), R(-1), 2 * asin(R(-5, 13))), (R(3, 2), R(0), R(1), R(0))])],
         "Collins_Stewart": [({"gamma": R(10, 7)}, [(R(1), R(0), R(0), R(1, 2)), (R(32), R(1), R(2), R(-7, 4)), (R(1), R(3), R(0), R(7, 8))])],
@@ -255,11 +256,18 @@ def make_cases(tier="quick"):
             for pt in pts:
                 if pt == "today":
                     pt = (_lcdm_today(P), R(0), R(0), R(0))
+                vec = [J.Jet.const(1)] * 3
+                if spec.get("extra") == "Kretschmann":
+                    # Schwarzschild: the outward unit normal of the coordinate spheres, s^i = x^i / (r psi^2); the oracle's covariant
+                    # divergence of this test vector is the expansion of the outgoing null rays (K_ij = 0)
+                    rr = sp.sqrt(x ** 2 + y ** 2 + z ** 2)
+                    psi2 = (1 + P["M"] / (2 * rr)) ** 2
+                    vec = [jet_of(ci / (rr * psi2), syms, pt) for ci in (x, y, z)]
                 case = {"cls": name, "seed": n, "module": name, "point": pt, "params": P,
                         "alpha": jet_of(al, syms, pt), "beta": [jet_of(b, syms, pt) for b in be],
                         "gam": {k: jet_of(gam[k], syms, pt) for k in SYM}, "lam": F(int(lam.p), int(lam.q)),
                         "sd": F(1), "cr": F(1),       # roots of det(gamma) are not supplied: only root-free oracle fields are used
-                        "phi": J.Jet.const(1), "vec": [J.Jet.const(1)] * 3, "ten": [J.Jet.const(1)] * 9, "vec4": [J.Jet.const(1)] * 4}
+                        "phi": J.Jet.const(1), "vec": vec, "ten": [J.Jet.const(1)] * 9, "vec4": [J.Jet.const(1)] * 4}
                 cases.append(case)
                 n += 1
     return cases
